@@ -2,7 +2,7 @@
    Model: coq/C16/Model.v (resource ledger; ops = mechanism-level events).  Inv, row_wf, quiet, qvec, released are
    defined in ProofsInv.v / ProofsState.v and repeated in the comments below. *)
 From Coq Require Import List ZArith NArith Bool.
-From LTV.C16 Require Import ParamsGen Model Proofs ProofsInv ProofsState.
+From LTV.C16 Require Import ParamsGen Model Proofs ProofsInv ProofsState ProofsBlocks.
 Import ListNotations.
 Open Scope Z_scope.
 
@@ -55,9 +55,22 @@ Theorem stop_zero : forall sd ops,
 Proof. exact ProofsState.stop_zero. Qed.
 Print Assumptions stop_zero.
 
+(* block table: for ALL op lists, a transfer that is not erased, in an unfinished block, belongs to an established
+   connection (BInv s := owners_ok (rows s) (blocks s)) *)
+Theorem block_owners_inv : forall sd ops, BInv (run sd ops).
+Proof. exact ProofsBlocks.block_owners_inv. Qed.
+Print Assumptions block_owners_inv.
+
+(* ... hence after DownloadMain::stop every block of the whole table is either finished (waiting for its hash) or
+   requestable again (not finished and only erased transfers left, i.e. m_notStalled = 0) *)
+Theorem blocks_requestable_after_stop : forall sd ops,
+  active (run sd ops) = true ->
+  forall b, In b (blocks (run sd (ops ++ [Stop]))) -> fin b = true \/ requestable b = true.
+Proof. exact ProofsBlocks.blocks_requestable_after_stop. Qed.
+Print Assumptions blocks_requestable_after_stop.
+
 (* restartable: stop + start brings the torrent back active with all torrent-level counters zero, and the ledger
-   invariant keeps holding for every continuation.  (That every block is requestable again after stop is proved per
-   aborted connection in abort_releases_all, not restated for the whole table here.) *)
+   invariant keeps holding for every continuation (blocks: blocks_requestable_after_stop). *)
 Theorem restartable : forall sd ops,
   active (run sd ops) = true -> opened (run sd ops) = true ->
   let s' := run sd (ops ++ [Stop; Start]) in
